@@ -1,6 +1,6 @@
 (* Property C18 - results do not depend on how the byte stream is chunked; I/O errors surface (partial:
    noodles' use of the stream between fill_buf calls is exercised, not modelled). *)
-From Sfs Require Import Index Npy Text Stream NpyP StreamP DetectP.
+From Sfs Require Import Index Npy Text Stream Frames NpyP StreamP DetectP FramesP.
 Close Scope string_scope. Open Scope N_scope.
 
 Close Scope string_scope. Open Scope N_scope.
@@ -119,4 +119,26 @@ Theorem C18_first_chunk_detection_was_schedule_dependent : forall (gunzip_prefix
   exists data sch, detect_stream_first_chunk gunzip_prefix (mk_reader data sch None) <> detect_stream_first_chunk gunzip_prefix (mk_reader data [] None).
 Proof. exact (@detect_short_first_chunk_refuted). Qed.
 Print Assumptions C18_first_chunk_detection_was_schedule_dependent.
+
+Close Scope N_scope. Open Scope nat_scope.
+(* the record framing of the (repaired) BCF reader: a stream of records is read back as those records *)
+Theorem C18_bcf_records_read_back : forall rs,
+  Forall frame_ok rs -> read_frames (frames_bytes rs) = Some rs.
+Proof. exact (@read_frames_frames_bytes). Qed.
+Print Assumptions C18_bcf_records_read_back.
+
+Close Scope N_scope. Open Scope nat_scope.
+(* ... and a stream that stops anywhere but between two records (the source failed or was cut short) is an error, never fewer records (F24) *)
+Theorem C18_bcf_partial_stream_is_error : forall rs n,
+  Forall frame_ok rs -> n <= length (frames_bytes rs) -> ~ In n (boundaries rs) ->
+  read_frames (firstn n (frames_bytes rs)) = None.
+Proof. exact (@read_frames_cut_inside). Qed.
+Print Assumptions C18_bcf_partial_stream_is_error.
+
+Close Scope N_scope. Open Scope nat_scope.
+(* the positions between records are the lengths of the streams of the first k records *)
+Theorem C18_bcf_record_boundaries : forall rs n,
+  In n (boundaries rs) <-> exists k, k <= length rs /\ n = length (frames_bytes (firstn k rs)).
+Proof. exact (@boundaries_spec). Qed.
+Print Assumptions C18_bcf_record_boundaries.
 
